@@ -205,7 +205,7 @@ def impl_main(payload):
         ea = isl._ea
         ogs = type(ea).generational_step
         viol = []
-        ops = [rng.choice(["step", "step", "step", "reset", "best", "hof"]) for _ in range(rng.randint(2, 7))]
+        ops = [rng.choice(["step", "step", "step", "reset", "best", "hof", "regen"]) for _ in range(rng.randint(2, 7))]
         if rng.random() < 0.5:
             ops = ["best"] + ops
         for op in ops:
@@ -260,6 +260,8 @@ def impl_main(payload):
                                         out=out, viol=[]))
                 elif op == "reset":
                     isl.reset_fitness()
+                elif op == "regen":
+                    isl.regenerate_population()      # a fresh, unevaluated population whatever the island's age
                 elif op == "best":
                     isl.get_best_individual()
                 else:
@@ -463,7 +465,8 @@ def check(rep, proof):
         evaluations=len(steps) + ag["runs"] + sc["runs"],
         distinct_nontrivial=len({repr(r["case"]) for r in steps if len(r["case"]["specs"]) >= 2}),
         rule="real islands (value chromosomes, five algorithms incl. the base EvolutionaryAlgorithm with VarAnd/VarOr) driven through "
-             "random sequences of generational steps, fitness resets, best-individual queries and hall-of-fame updates; every "
+             "random sequences of generational steps, fitness resets, population regenerations, best-individual queries and hall-of-fame "
+             "updates; every "
              "generational step is replayed through Model/Pipeline.v (how each offspring arose and which candidates selection "
              "returned are observed) and the next generation's (genome, stored fitness, flag) triples compared; a class-level "
              "monitor flags every read of a missing/stale fitness inside selection, diagnostics, best-individual and hall-of-fame "
